@@ -14,11 +14,14 @@ SHIMS_USED = ['tools/orch/robsd-wait (polling stand-in for the kqueue robsd-wait
               'bash in place of ksh; probe step commands gated by files; hook ROBSD_VERIF_NCPU']
 
 
+SAFE_KEY = re.compile(r'[A-Za-z0-9_.=-]{1,64}')
+
+
 class Canvas:
     """One canvas root with a configuration of probe steps.
     steps: list of dicts {name, parallel(bool), exit(int)}; skip: list of names; ncpu: int"""
 
-    def __init__(self, ctx, impl, work, steps, skip=(), ncpu=2, keep=0, hook=None):
+    def __init__(self, ctx, impl, work, steps, skip=(), ncpu=2, keep=0, hook=None, hook_args=(), root_slash=False):
         self.ctx, self.impl, self.work = ctx, impl, work
         self.steps, self.skip, self.ncpu = steps, list(skip), ncpu
         self.root = os.path.join(work, 'root')
@@ -27,14 +30,25 @@ class Canvas:
         for d in (self.root, self.orch, os.path.join(self.orch, 'gate'), self.tmp):
             os.makedirs(d, exist_ok=True)
         self.conf = os.path.join(work, 'canvas.conf')
-        lines = ['canvas-name "t"', 'canvas-dir "%s"' % self.root,
-                 'hook { "%s" "${step-name}" "${step-exit}" }' % (hook or os.path.join(TOOLS, 'hook'))]
+        # the probe of a step is told a KEY, not the name: the key names its gate file and its trace lines.  It is the name
+        # itself when that is a short word of file-name-safe characters (all cases older than the boundary classes), else
+        # '@<position>' - names with '/', blanks, of NAME_MAX length ... cannot be file names or words of a trace line.
+        # Steps that share a name share the key of the first of them (one gate per name, as before).
+        self.key, self.unkey = {}, {}
+        for i, s in enumerate(steps):
+            if s['name'] not in self.key:
+                k = s['name'] if SAFE_KEY.fullmatch(s['name']) else '@%d' % (i + 1)
+                self.key[s['name']] = k
+                self.unkey[k] = s['name']
+        # root_slash: the configuration spells the root with a trailing slash (the lock then names <root>//DATE.n)
+        lines = ['canvas-name "t"', 'canvas-dir "%s%s"' % (self.root, '/' if root_slash else ''),
+                 'hook { "%s" "${step-name}" "${step-exit}"%s }' % (hook or os.path.join(TOOLS, 'hook'), ''.join(' "%s"' % a for a in hook_args))]
         if self.skip:
             lines.append('skip { %s }' % ' '.join('"%s"' % s for s in self.skip))
         if keep:
             lines.append('keep %d' % keep)
         for s in steps:
-            lines.append('step "%s" command { "sh" "%s" "%s" }%s' % (s['name'], os.path.join(TOOLS, 'probe'), s['name'],
+            lines.append('step "%s" command { "sh" "%s" "%s" }%s' % (s['name'], os.path.join(TOOLS, 'probe'), self.key[s['name']],
                                                                      ' parallel' if s.get('parallel') else ''))
         open(self.conf, 'w').write('\n'.join(lines) + '\n')
         self.mailbox = os.path.join(self.orch, 'mailbox')
@@ -64,6 +78,9 @@ class Canvas:
             tr = [l.split() for l in open(os.path.join(self.orch, 'trace')).read().splitlines() if l.strip()]
         except OSError:
             return []
+        for t in tr:
+            if len(t) > 1:
+                t[1] = self.unkey.get(t[1], t[1])
         idx = {st['name']: i for i, st in enumerate(self.steps)}
         par = {st['name'] for st in self.steps if st.get('parallel')}
         out, i = [], 0
@@ -80,8 +97,8 @@ class Canvas:
         return out
 
     def open_gate(self, name, code):
-        p = os.path.join(self.orch, 'gate', name)
-        open(p + '.tmp', 'w').write('%d\n' % code)
+        p = os.path.join(self.orch, 'gate', self.key.get(name, name))
+        open(p + '.tmp', 'w').write('%s\n' % code)       # a number, or 'x<number>': exit with it even if it is 128 + n
         os.rename(p + '.tmp', p)
 
     def forget_trace(self):
